@@ -51,11 +51,7 @@ collations: dict[str, Callable[[str, str, str], bool]] = {
     "i;octet": lambda a, b, k: _match(a, b, k),
     # TODO(jelmer): Follow all rules as specified in
     # https://datatracker.ietf.org/doc/html/rfc5051
-    "i;unicode-casemap": lambda a, b, k: _match(
-        a.encode("utf-8", "surrogateescape").upper(),
-        b.encode("utf-8", "surrogateescape").upper(),
-        k,
-    ),
+    "i;unicode-casemap": lambda a, b, k: _match(a.casefold(), b.casefold(), k),
 }
 
 
